@@ -158,6 +158,29 @@ def run_case(cs, ctx):
             except BaseException as e:
                 ctx.finding(en.F('C09', 'bf_runs', '%s/%s: -bf raised %s: %s' % (mp, n, type(e).__name__, e),
                                  exc=en.exc_info(e) if isinstance(e, Exception) else None, mp=mp), c2)
+        # (4) the documented two-program workflow: the file written by THIS process is solved by ANOTHER interpreter
+        #     (its own string-hash seed, nothing shared but the file)
+        if cs % 25 == 3 and n == '0.txt' and facts.get('status') in ('Optimal', 'Infeasible'):
+            import subprocess
+            import sys as _sys
+            from .. import loader
+            a = ['-f', path, '-na', str(na)] + sp.opts_to_argv(opts, random.Random(cs))
+            code = ('import sys\nfrom matchingproblems.solver import Solver\ns = Solver(sys.argv[1:])\ns.solve()\n'
+                    'print(s.get_results())\n')
+            env = dict(os.environ, PYTHONPATH=loader.REPO, PYTHONHASHSEED=str(100 + cs % 50), PYTHONDONTWRITEBYTECODE='1')
+            ctx.cnt('files_solved_by_a_separate_interpreter')
+            try:
+                r = subprocess.run([_sys.executable, '-c', code] + a, env=env, capture_output=True, text=True, timeout=120,
+                                   cwd=ctx.workdir)
+                st = [l.split(':', 1)[1].strip() for l in r.stdout.split('\n') if l.startswith('pulp_status')]
+                if r.returncode != 0 or not st:
+                    ctx.finding(en.F('C09', 'separate_process', '%s/%s: a separate interpreter cannot solve the generated file (%s): exit %s, %s' % (
+                        mp, n, a[2:], r.returncode, r.stderr.strip().split('\n')[-1][:300])), c3)
+                elif st[0] != facts['status'] and not (ref['enumerable'] and st[0] == ('Optimal' if ref['feasible'] else 'Infeasible')):
+                    ctx.finding(en.F('C09', 'separate_process', '%s/%s: a separate interpreter reports %s, this process %s for %s' % (
+                        mp, n, st[0], facts['status'], a[2:])), c3)
+            except subprocess.TimeoutExpired:
+                ctx.cnt('separate_interpreter_timed_out')
         ctx.sample({'gen_argv': case['gen_argv'], 'file': text[:900], 'solver_argv': c3['solver_argv'],
                     'status': facts.get('status')}, cap=2)
     lc.harvest_contracts(ctx, case)
